@@ -12,14 +12,7 @@ open Biogo.BytesFeat
 def startsWithSpace (s : Bytes) : Bool := spaceLen s != 0
 
 /-- the string ends with an encoded white-space rune -/
-def endsWithSpace (s : Bytes) : Bool :=
-  match s.reverse with
-  | [] => false
-  | a :: r =>
-    isAsciiSpace a ||
-    (match r with
-     | [] => false
-     | b :: r2 => isSpace2 b a || (match r2 with | [] => false | c :: _ => isSpace3 c b a))
+def endsWithSpace (s : Bytes) : Bool := spaceLenRev s.reverse != 0
 
 /-- "trimmed": `bytes.TrimSpace` would not change it -/
 def trimmed (s : Bytes) : Bool := !startsWithSpace s && !endsWithSpace s
@@ -44,7 +37,7 @@ def bedWF (n : Nat) (b : Bed.Rec) : Bool :=
   (n < 12 ||
     (inInt64 b.thickStart && inInt64 b.thickEnd && rgbOK b.rgb &&
      -- at least one block, the count agrees with both lists
-     b.blockSizes.length ≥ 1 && b.blockCount == b.blockSizes.length &&
+     b.blockSizes.length ≥ 1 && inInt64 b.blockCount && b.blockCount == b.blockSizes.length &&
      b.blockStarts.length == b.blockSizes.length &&
      int64s b.blockSizes && int64s b.blockStarts))
 
